@@ -1747,7 +1747,9 @@ func (r resolverQuery) loadAsFile(path string, extensionOrder []string) (string,
 		r.debugLogs.addNote(fmt.Sprintf("Failed to read directory %q: %s", dirPath, originalError.Error()))
 	}
 	if err != nil {
-		if err != syscall.ENOENT {
+		// Ignore "ENOTDIR" here too (see "dirInfoUncached"): a path such as
+		// "./data.json/x" where "data.json" is a file is just a missing file
+		if err != syscall.ENOENT && err != syscall.ENOTDIR {
 			prettyPaths := MakePrettyPaths(r.fs, logger.Path{Text: dirPath, Namespace: "file"})
 			r.log.AddError(nil, logger.Range{}, fmt.Sprintf("Cannot read directory %q: %s",
 				prettyPaths.Select(r.options.LogPathStyle), err.Error()))
